@@ -16,7 +16,7 @@ META = dict(
 def harnesses(tier):
     hs = []
     for fmt in range(8):
-        N = (3 if fmt in (2, 3, 4) else 4) if tier == 'quick' else (4 if fmt in (2, 3, 4) else 6)
+        N = (3 if fmt in (2, 3, 4) else 4) if tier == 'quick' else (4 if fmt in (2, 3, 4) else (5 if fmt in (5, 6) else 6))      # opml/itmz at 6 bytes: no verdict in 3000 s (measured)
         hs.append(esccommon.escape('c04_esc', fmt, N, tier))
     hs += nesting(tier)
     hs += latex_tt(tier)
